@@ -94,9 +94,17 @@ def run(repo, gendir, builddir):
     try:
         import vlib
         key = hashlib.sha256((vlib.repo_hash() + PROBE + open(__file__).read()).encode()).hexdigest()[:16]
-        stamp = os.path.join(builddir, "gen-" + key + ".out")
-        if os.path.exists(stamp) and os.path.exists(os.path.join(gendir, "Tables.v")):
-            return True, "translator: cached\n"
+        stamp = os.path.join(builddir, "gen-" + key + ".json")
+        if os.path.exists(stamp):
+            import json
+            cached = json.load(open(stamp))
+            for name, content in cached.items():
+                p = os.path.join(gendir, name)
+                old = open(p).read() if os.path.exists(p) else None
+                if old != content:
+                    open(p, "w").write(content)
+                    log.append(f"translator: {name} rewritten (from cache)")
+            return True, "translator: cached\n" + "\n".join(log) + "\n"
         outs = {}
         for tag, flags in (("default", ""), ("nan", "-DARDUINOJSON_ENABLE_NAN=1")):
             src = os.path.join(builddir, f"probe_{tag}.cpp")
@@ -144,7 +152,8 @@ def run(repo, gendir, builddir):
             if old != content:
                 open(p, "w").write(content)
                 log.append(f"translator: {name} rewritten")
-        open(stamp, "w").write(outs["default"])
+        import json
+        json.dump({"Tables.v": new_tables, "Config.v": new_cfg}, open(stamp, "w"))
         return True, "\n".join(log) + "\n"
     except Exception as e:  # noqa
         return False, f"UNSUPPORTED translator error: {e!r}\n"
